@@ -310,4 +310,65 @@ theorem xformNormal_ne_zero (n : V3 α) (d : α) (m : M44 α) (D : V3 α) (haff 
   · exact (ne_of_gt hD) h
 
 
+/-! ## triangle `intersect` (ImathLineAlgo.h): named quantities and the barycentric algebra -/
+
+/-- `a - en * (en ^ a)` -/
+def perpTo (en a : V3 α) : V3 α := ⟨a.x - en.x * dot en a, a.y - en.y * dot en a, a.z - en.z * dot en a⟩
+/-- `v / L` -/
+def divS (v : V3 α) (L : α) : V3 α := ⟨v.x / L, v.y / L, v.z / L⟩
+/-- un-normalised triangle normal `(v2−v1) × (v1−v0)` -/
+def triN (v0 v1 v2 : V3 α) : V3 α := cross (sub v2 v1) (sub v1 v0)
+
+/-- numerator / denominator of the barycentric coordinate of `vc` for the edge `va → vb` (Gram determinants) -/
+def numA (p va vb vc : V3 α) : α :=
+  dot (sub vb va) (sub vb va) * dot (sub p va) (sub vc va) - dot (sub vb va) (sub p va) * dot (sub vb va) (sub vc va)
+def denA (va vb vc : V3 α) : α :=
+  dot (sub vb va) (sub vb va) * dot (sub vc va) (sub vc va) - dot (sub vb va) (sub vc va) ^ 2
+
+/-- projecting away a unit direction: `(a − u(u·a))·(b − u(u·b)) = a·b − (u·a)(u·b)` -/
+theorem perpTo_dot (u a b : V3 α) (hu : dot u u = 1) : dot (perpTo u a) (perpTo u b) = dot a b - dot u a * dot u b := by
+  simp only [perpTo, dot] at hu ⊢
+  linear_combination ((u.x * a.x + u.y * a.y + u.z * a.z) * (u.x * b.x + u.y * b.y + u.z * b.z)) * hu
+
+theorem divS_unit (E : V3 α) (L : α) (hL : L ≠ 0) (hsq : L ^ 2 = dot E E) : dot (divS E L) (divS E L) = 1 := by
+  simp only [divS, dot] at hsq ⊢; field_simp; linarith
+
+/-- the code's `e = c·d` for the edge with direction `E/L`, `L = |E|` -/
+theorem perp_e_eq (E a b : V3 α) (L : α) (hL : L ≠ 0) (hsq : L ^ 2 = dot E E) :
+    dot (perpTo (divS E L) a) (perpTo (divS E L) b) = (dot E E * dot a b - dot E a * dot E b) / dot E E := by
+  rw [perpTo_dot _ _ _ (divS_unit E L hL hsq), ← hsq]
+  simp only [divS, dot]; field_simp
+
+theorem denA_eq (v0 v1 v2 : V3 α) :
+    denA v0 v1 v2 = dot (triN v0 v1 v2) (triN v0 v1 v2) ∧ denA v1 v2 v0 = dot (triN v0 v1 v2) (triN v0 v1 v2) := by
+  constructor <;> (simp only [denA, triN, dot, cross, sub]; ring)
+
+/-- the barycentric identity: the Gram-determinant coordinates reproduce the point up to its normal component -/
+theorem bary_identity (p v0 v1 v2 : V3 α) :
+    sub (add (add (smul (numA p v1 v2 v0) v0) (smul (dot (triN v0 v1 v2) (triN v0 v1 v2) - numA p v1 v2 v0 - numA p v0 v1 v2) v1))
+          (smul (numA p v0 v1 v2) v2)) (smul (dot (triN v0 v1 v2) (triN v0 v1 v2)) p)
+      = smul (- dot (triN v0 v1 v2) (sub p v0)) (triN v0 v1 v2) := by
+  simp only [numA, triN, dot, cross, sub, add, smul, V3.mk.injEq]
+  refine ⟨?_, ?_, ?_⟩ <;> ring
+
+/-! the quantities the code computes, by name (`len` is the length function) -/
+
+section
+variable (len : V3 α → α)
+def triNh (v0 v1 v2 : V3 α) : V3 α := divS (triN v0 v1 v2) (len (triN v0 v1 v2))
+def triD (l : Line3 α) (v0 v1 v2 : V3 α) : α := dot (triNh len v0 v1 v2) (sub v0 l.pos)
+def triNd (l : Line3 α) (v0 v1 v2 : V3 α) : α := dot (triNh len v0 v1 v2) l.dir
+def triPt (l : Line3 α) (v0 v1 v2 : V3 α) : V3 α := lineAt l (triD len l v0 v1 v2 / triNd len l v0 v1 v2)
+/-- `e` of the edge `va → vb` with opposite vertex `vc` -/
+def triE (pt va vb vc : V3 α) : α :=
+  dot (perpTo (divS (sub vb va) (len (sub vb va))) (sub pt va)) (perpTo (divS (sub vb va) (len (sub vb va))) (sub vc va))
+def triF (va vb vc : V3 α) : α :=
+  dot (perpTo (divS (sub vb va) (len (sub vb va))) (sub vc va)) (perpTo (divS (sub vb va) (len (sub vb va))) (sub vc va))
+def triBz (l : Line3 α) (v0 v1 v2 : V3 α) : α := triE len (triPt len l v0 v1 v2) v0 v1 v2 / triF len v0 v1 v2
+def triBx (l : Line3 α) (v0 v1 v2 : V3 α) : α := triE len (triPt len l v0 v1 v2) v1 v2 v0 / triF len v1 v2 v0
+def triBy (l : Line3 α) (v0 v1 v2 : V3 α) : α := 1 - triBx len l v0 v1 v2 - triBz len l v0 v1 v2
+
+
+end
+
 end ImathVerif.Geo
